@@ -122,6 +122,9 @@ def generate(tape, tier="quick"):
         # a second composition sharing the spill location is built BEFORE this one runs and is run after it was
         # finalized (several compositions in one process default to the same location)
         sc["shared_location"] = tape.chance(1, 3)
+        # ... and the location does not exist beforehand: the first composition built creates it, runs and is finalized
+        # while another one, built and connected in between, still has its initial publication waiting there
+        sc["fresh_location"] = tape.chance(1, 2)
         bufs = [[li, pi] for li, ln in enumerate(sc["links"]) for pi, a in enumerate(ln["chain"])
                 if a["kind"] in ("next", "prev", "linear", "step", "avg", "sum") and pi >= ln.get("shared_len", 0)]
         if bufs and tape.chance(1, 2):
@@ -358,7 +361,26 @@ def execute_e1(sc):
             os.makedirs(root, exist_ok=True)
             seam = Seam(root)
             with seam_installed(seam):
-                sib = _sibling_composition(lim, root) if sc.get("shared_location") else None
+                sib = None
+                if sc.get("shared_location"):
+                    if sc.get("fresh_location"):
+                        shutil.rmtree(root, ignore_errors=True)
+                        first = _sibling_composition(lim, root)
+                        sib = _sibling_composition(lim, root)
+                        try:
+                            sib[0].connect()
+                        except Exception as e:      # noqa: BLE001
+                            viol.append({"oracle": "spill-differs", "kind": "shared-location", "msg":
+                                         f"slot_memory_limit={lim}: connecting a second composition on a shared, newly "
+                                         f"created location raised {type(e).__name__}: {e}"})
+                            break
+                        msg = _run_sibling(first)
+                        if msg:
+                            viol.append({"oracle": "spill-differs", "kind": "shared-location", "msg":
+                                         f"slot_memory_limit={lim}: first composition on a newly created location: {msg}"})
+                            break
+                    else:
+                        sib = _sibling_composition(lim, root)
                 r = run_e1(dict(base, mem_limit=lim), scratch=root, value_check=False)
                 if sib is not None:
                     msg = _run_sibling(sib)
